@@ -62,9 +62,9 @@ type Chan struct {
 	// rendezvous for unbuffered channels
 	sendq []*sendWaiter
 	recvq []*recvWaiter
-	timer bool // a timer channel: receive is always possible once (abstract time)
-	fired bool
-	immediate bool // timer with zero delay
+	timer bool // a timer channel (abstract time): armed until the scheduler or the harness lets it expire
+	tstate int // 0 armed, 1 expired (one value can be received), 2 consumed
+	immediate bool // timer with zero delay: expired from the start
 	label string
 }
 
@@ -253,6 +253,18 @@ func (s *Sched) scheduleNext(g *Goroutine, exiting bool) {
 		// g itself is blocked: it is in cands only if its ready() is true
 	}
 	if len(cands) == 0 {
+		// nothing can run: time passes. One armed timer that somebody waits for expires (all choices
+		// explored under SchedAll), and scheduling resumes.
+		if ts := e.waitedTimers(); len(ts) > 0 {
+			k := 0
+			if len(ts) > 1 && e.cfg.SchedAll {
+				k = e.choose(len(ts), "timer to expire")
+			}
+			ts[k].tstate = 1
+			s.logTrace(g, fmt.Sprintf("time passes: timer chan#%d expires", ts[k].id))
+			s.scheduleNext(g, exiting)
+			return
+		}
 		// quiescence
 		var blocked []string
 		mainBlocked := false
@@ -417,7 +429,7 @@ func (c *Chan) canRecv() bool {
 		return false
 	}
 	if c.timer {
-		return !c.fired
+		return c.tstate == 1
 	}
 	if len(c.buf) > 0 || c.closed {
 		return true
@@ -451,7 +463,7 @@ func (c *Chan) canSend() bool {
 // doRecv performs a receive that is known to be possible.
 func (e *Exec) doRecv(c *Chan) (Value, bool) {
 	if c.timer {
-		c.fired = true
+		c.tstate = 2
 		return e.zero(c.elemT), true
 	}
 	if len(c.buf) > 0 {
@@ -566,9 +578,14 @@ func (e *Exec) chanRecv(fr *frame, c *Chan) (Value, bool) {
 	}
 	w := &recvWaiter{g: g}
 	c.recvq = append(c.recvq, w)
-	e.blockUntil(g, fmt.Sprintf("recv on chan#%d%s", c.id, c.label), func() bool { return w.done || c.closed })
+	e.blockUntil(g, fmt.Sprintf("recv on chan#%d%s", c.id, c.label), func() bool { return w.done || c.closed || (c.timer && c.canRecv()) })
 	if w.done {
 		return w.v, w.ok
+	}
+	if c.timer && c.canRecv() {
+		w.done = true
+		c.gc()
+		return e.doRecv(c)
 	}
 	w.done = true
 	c.gc()
@@ -754,4 +771,23 @@ func hostStack() string {
 		}
 	}
 	return strings.Join(out, "\n")
+}
+
+
+// waitedTimers lists the armed timer channels on which some goroutine is blocked.
+func (e *Exec) waitedTimers() []*Chan {
+	var out []*Chan
+	ts, _ := e.hostState["timers"].([]*Chan)
+	for _, c := range ts {
+		if c.tstate != 0 {
+			continue
+		}
+		for _, w := range c.recvq {
+			if !w.done && (w.sel == nil || !w.sel.fired) {
+				out = append(out, c)
+				break
+			}
+		}
+	}
+	return out
 }
